@@ -35,7 +35,9 @@ macro_rules! dispatch {
             "C05" => driver::$f::<props::c05::C05>($($arg),*),
             "C06" => driver::$f::<props::c06::C06>($($arg),*),
             "C07" => driver::$f::<props::c07::C07>($($arg),*),
+            "C08" => driver::$f::<props::c08::C08>($($arg),*),
             "C09" => driver::$f::<props::c09::C09>($($arg),*),
+            "C10" => driver::$f::<props::c10::C10>($($arg),*),
             "C15" => driver::$f::<props::c15::C15>($($arg),*),
             "C19" => driver::$f::<props::c19::C19>($($arg),*),
             "C20" => driver::$f::<props::c20::C20>($($arg),*),
